@@ -459,3 +459,299 @@ def gsp_post(ctx, st, result):
 
 UNITS.append(Unit("C13", "jsonargparse._parameter_resolvers:get_signature_parameters", gsp_setup, gsp_post, never13, max_paths=5000,
                   trusted=["the four resolvers by contract: a list of parameters, None when they do not apply, or an exception (AST resolver: the other units of this property and the harness)"]))
+
+
+# ------------------------------------------------------------------------------------------------ ParametersVisitor.get_parameters_args_and_kwargs
+# The dispatcher of the AST resolver: every place where the function's **kwargs is used contributes the parameters that this use
+# accepts - a kwargs.pop / kwargs.get names one parameter; a forwarding call contributes the parameters of what it calls (for
+# super().m(**kwargs): of the next class in the MRO that defines m; otherwise of the component the call denotes) minus those the call
+# hard-codes; `self.x = kwargs` contributes the parameters of the places where self.x is used - and forms that are not understood
+# (kwargs given as a keyword argument, an unsupported super() call, a callee that cannot be determined, another kind of assignment)
+# contribute nothing.  The contributions are grouped in the order of the uses; a name that some forwarding use hard-codes is not offered.
+USES = ["pop-or-get", "super-call", "unsupported-super-call", "call-of-a-known-component", "call-of-an-unknown-callee", "kwargs-as-a-keyword-argument", "self.attr=kwargs", "other-assignment"]
+
+
+def gpak_setup(ctx):
+    n_uses = ctx.choose(3, "number-of-uses")
+    has_kwargs = ctx.choose(2, "function-has-**kwargs") == 1 if n_uses == 0 else True
+    has_parent = ctx.choose(2, "inside-a-class") == 1
+    uses = []
+    for i in range(n_uses):
+        kind = USES[ctx.choose(len(USES), f"use{i}")]
+        hard = ctx.choose(2, f"use{i}-hard-codes-h") == 1 if kind in ("super-call", "call-of-a-known-component") else False
+        node = Rec("Call" if "assign" not in kind and "attr" not in kind else "Assign", attrs={"kind": kind, "hard": hard, "i": i, "func": Rec("Attribute", attrs={"attr": "__init__"})})
+        uses.append((kind, hard, node, Rec(f"source{i}")))
+    for n in ("Call", "Assign", "AnnAssign"):
+        ctx.classes.add(n, [])
+    kw_load = Rec("Name(kwargs, Load)")
+    comp_node = Rec("FunctionDef", attrs={"args": Rec("arguments", attrs={"vararg": None, "kwarg": Rec("arg", attrs={"arg": "kwargs"}) if has_kwargs else None})})
+    logger = Rec("logger")
+    gsp = Rec("get_signature_parameters")
+    self = Rec("ParametersVisitor", attrs={"component_node": comp_node, "component": Rec("component"), "parent": Rec("parent class") if has_parent else None, "doc_params": Rec("doc_params"),
+                                          "self_name": "self", "logger": logger})
+    produced = {}
+
+    def params_for(i, names):
+        produced[i] = [P(f"{n}") for n in names]
+        return list(produced[i])
+
+    self.methods.update({
+        "parse_source_tree": lambda c, s_, a, k: c.event("parse_source_tree"),
+        "find_values_usage": lambda c, s_, a, k: (c.event("find", dict(a[0])), [("kwargs", node, src) for _, _, node, src in uses])[1],
+        "get_kwargs_pop_or_get_parameter": lambda c, s_, a, k: (c.event("pop-param", a[0], a[1], a[2], a[3]), params_for(a[0].attrs["i"], ["popped%d" % a[0].attrs["i"]])[0])[1],
+        "get_node_component": lambda c, s_, a, k: (c.event("node-component", a[0], a[1]), (("component-of", a[0].attrs["i"]),) if a[0].attrs["kind"] == "call-of-a-known-component" else None)[1],
+        "add_node_origins": lambda c, s_, a, k: c.event("origins", list(a[0]), a[1]),
+        "get_parameters_attr_use_in_members": lambda c, s_, a, k: (c.event("attr-use", a[0]), params_for(("attr", a[0]), ["a1", "a2"]))[1],
+        "log_debug": lambda c, s_, a, k: None,
+    })
+
+    def remove_given(c, a, k):
+        node, params, removed = a
+        c.event("remove-given", node, list(params), removed)
+        if node.attrs["hard"] and any(p.attrs["name"] == "h" for p in params):
+            removed.add("h")  # (its own unit: only names actually taken out of the list are recorded)
+            return [p for p in params if p.attrs["name"] != "h"]
+        return list(params)
+
+    grouped_in = []
+
+    def group(c, a, k):
+        grouped_in.append([list(x) for x in a[0]])
+        out = []
+        for lst in a[0]:
+            for p in lst:
+                if p.attrs["name"] not in [q.attrs["name"] for q in out]:
+                    out.append(p)
+        return out
+
+    calls = {"ast_variable_load": lambda c, a, k: kw_load, "ast.dump": lambda c, a, k: ("dump", a[0]),
+             "ast_is_kwargs_pop_or_get": lambda c, a, k: a[0].attrs["kind"] == "pop-or-get" and a[1] == ("dump", kw_load),
+             "ast_get_call_kwarg_with_value": lambda c, a, k: Rec("keyword", attrs={"arg": "cfg" if a[0].attrs["kind"] == "kwargs-as-a-keyword-argument" else None}),
+             "ast_is_super_call": lambda c, a, k: a[0].attrs["kind"] in ("super-call", "unsupported-super-call"),
+             "ast_is_supported_super_call": lambda c, a, k: a[0].attrs["kind"] == "super-call",
+             "get_mro_parameters": lambda c, a, k: (c.event("mro", a[0], a[1], a[2]), params_for(("mro", len(produced)), ["m1", "h"]))[1],
+             "get_signature_parameters": lambda c, a, k: (c.event("signature", list(a), k.get("logger")), params_for(("sig", len(produced)), ["c1", "h"]))[1],
+             "remove_given_parameters": remove_given, "ast_is_attr_assign": lambda c, a, k: "stored" if a[0].attrs["kind"] == "self.attr=kwargs" else False,
+             "group_parameters": group, "split_args_and_kwargs": lambda c, a, k: ("split", list(a[0]))}
+    consts = {"ast": Rec("module ast", attrs={"Call": ClassRef("Call")}), "ast_assign_type": (ClassRef("Assign"), ClassRef("AnnAssign")), "get_signature_parameters": gsp}
+    # `get_signature_parameters` is both called and handed over as a value (to get_mro_parameters)
+    return Setup(env={"self": self}, calls=calls, consts=consts, data=dict(uses=uses, has_kwargs=has_kwargs, has_parent=has_parent, self_=self, grouped_in=grouped_in, produced=produced, gsp=gsp, logger=logger))
+
+
+def gpak_post(ctx, st, result):
+    d = st.data
+    ev = ctx.events
+    tag = "[" + ",".join(f"{k}{'+h' if h else ''}" for k, h, _, _ in d["uses"]) + f";{'method' if d['has_parent'] else 'function'}]"
+    if not d["uses"]:
+        ctx.oblige("post", "**kwargs-is-not-used-anywhere(or there is none)=>nothing-is-offered" + tag, result == ([], []))
+        return
+    # the contribution expected from each use
+    want, removed, origins = [], set(), []
+    for kind, hard, node, src in d["uses"]:
+        names = None
+        if kind == "pop-or-get":
+            want.append(["popped%d" % node.attrs["i"]])
+            continue
+        if kind == "super-call":
+            names = ["m1", "h"] if d["has_parent"] else None   # outside a class a super() call is an ordinary call of an unknown callee
+        elif kind == "call-of-a-known-component":
+            names = ["c1", "h"]
+        elif kind == "self.attr=kwargs":
+            if d["has_parent"]:
+                want.append(["a1", "a2"])
+                origins.append(node)
+            continue
+        elif kind in ("other-assignment",):
+            continue
+        if names is not None:
+            if hard:
+                names = [n for n in names if n != "h"]
+                removed.add("h")
+            want.append(names)
+            origins.append(node)
+    got = [[p.attrs["name"] for p in lst] for lst in (d["grouped_in"][0] if d["grouped_in"] else [])]
+    ctx.oblige("post", "every-use-contributes-what-it-accepts,in-the-order-of-the-uses:pop/get->that-name;forwarding-call->the-callee's-parameters(next definer in the MRO for super(), the denoted component otherwise)-minus-what-the-call-hard-codes;self.attr=kwargs->the-uses-of-the-attribute;forms-not-understood->nothing" + tag,
+               len(d["grouped_in"]) == 1 and got == want, note=f"want {want}, got {got}")
+    flat = []
+    for lst in want:
+        for n in lst:
+            if n not in flat:
+                flat.append(n)
+    final = [n for n in flat if n not in removed]
+    ok = isinstance(result, tuple) and len(result) == 2 and result[0] == "split" and [p.attrs["name"] for p in result[1]] == final
+    ctx.oblige("post", "the-result-is-the-grouped-parameters-without-any-name-that-a-forwarding-use-hard-codes(it would be passed twice when that use runs),split-into-positional-and-keyword" + tag, ok,
+               note=f"want {final}")
+    og = [e[2] for e in ev if e[0] == "origins"]
+    ctx.oblige("post", "each-contribution-of-a-call-or-assignment-is-marked-with-the-node-it-came-from" + tag, len(og) == len(origins) and all(x is y for x, y in zip(og, origins)))
+    mro = [e for e in ev if e[0] == "mro"]
+    ctx.oblige("post", "a-super()-call-is-resolved-along-the-MRO-with(the called method's name,the signature resolver,the logger)" + tag,
+               all(e[1] == "__init__" and e[2] is d["gsp"] and e[3] is d["logger"] for e in mro) and len(mro) == (len([1 for k, _, _, _ in d["uses"] if k == "super-call"]) if d["has_parent"] else 0))
+    sig = [e for e in ev if e[0] == "signature"]
+    ctx.oblige("post", "a-known-component-is-resolved-with-the-arguments-get_node_component-returned-and-the-logger" + tag,
+               all(len(e[1]) == 1 and e[1][0][0] == "component-of" and e[2] is d["logger"] for e in sig) and len(sig) == len([1 for k, _, _, _ in d["uses"] if k == "call-of-a-known-component"]))
+
+
+UNITS.append(Unit("C13", MOD + ":ParametersVisitor.get_parameters_args_and_kwargs", gpak_setup, gpak_post, never13, max_paths=60000, expect_cover=("return",),
+                  trusted=["find_values_usage lists the uses of *args / **kwargs in the function body in source order (static analysis; harness)", "get_mro_parameters, remove_given_parameters, group_parameters, split_args_and_kwargs, get_signature_parameters: their own units",
+                           "get_node_component / get_parameters_attr_use_in_members / get_kwargs_pop_or_get_parameter by contract (the latter: its own unit)", "ast_is_* helpers classify the node shapes as their names say"]))
+
+
+# ------------------------------------------------------------------------------------------------ ParametersVisitor.get_kwargs_pop_or_get_parameter
+def pg_setup(ctx):
+    dk = ["constant", "empty-literal(dict()/list()/...)", "expression"][ctx.choose(3, "default-expression")]
+    name_node, dflt_node = Rec("Constant", attrs={"value": "size"}), Rec("default node", attrs={"kind": dk})
+    node = Rec("Call", attrs={"args": [name_node, dflt_node]})
+    literal_value = Rec("fresh empty container")
+    unknown = []
+
+    def unknown_default(c, a, k):
+        r = Rec("UnknownDefault", attrs={"resolver": a[0] if a else k.get("resolver")})
+        unknown.append(r)
+        return r
+
+    self = Rec("ParametersVisitor", methods={"log_debug": lambda c, s_, a, k: None, "get_node_origin": lambda c, s_, a, k: (c.event("origin-of", a[0]), ":L7")[1]})
+    doc = Rec("doc_params", methods={"get": lambda c, s_, a, k: ("doc-of", a[0])})
+    calls = {"ast_get_constant_value": lambda c, a, k: a[0].attrs["value"] if "value" in a[0].attrs else z3.Int("constant-default"),
+             "ast_is_constant": lambda c, a, k: a[0].attrs.get("kind") == "constant", "ast.dump": lambda c, a, k: "dump-of-literal" if a[0].attrs["kind"].startswith("empty-literal") else "dump-of-expression",
+             "UnknownDefault": unknown_default, "ParamData": lambda c, a, k: Rec("ParamData", attrs=dict(k)), "ast_str": lambda c, a, k: "text"}
+    consts = {"ast_literals": {"dump-of-literal": __import__("pyvc.engine", fromlist=["Fn"]).Fn(lambda c, a, k: literal_value, "literal")}, "inspect": Rec("module inspect", attrs={"_empty": "<empty>"}),
+              "kinds": KINDS, "param_kwargs_pop_or_get": "**.pop|get():"}
+    comp, parent = Rec("component"), Rec("parent")
+    return Setup(env={"self": self, "node": node, "component": comp, "parent": parent, "doc_params": doc}, calls=calls, consts=consts,
+                 data=dict(dk=dk, node=node, comp=comp, parent=parent, literal_value=literal_value, unknown=unknown))
+
+
+def pg_post(ctx, st, result):
+    d = st.data
+    a = result.attrs if isinstance(result, Rec) and result.cls == "ParamData" else {}
+    ctx.oblige("post", f"kwargs.pop/get('size', d)-names-one-keyword-only-parameter-'size'-of-this-component-and-parent,without-annotation,documented-by-its-own-docstring-entry,origin-marked-as-pop/get-at-the-node[{d['dk']}]",
+               a.get("name") == "size" and a.get("annotation") == "<empty>" and a.get("kind") == "KEYWORD_ONLY" and a.get("doc") == ("doc-of", "size") and a.get("parent") is d["parent"] and a.get("component") is d["comp"]
+               and a.get("origin") == "**.pop|get():" + ":L7" and set(a) == {"name", "annotation", "default", "kind", "doc", "parent", "component", "origin"})
+    dflt = a.get("default")
+    if d["dk"] == "constant":
+        ctx.oblige("post", "a-constant-default-is-that-constant", z3.is_expr(dflt) and str(dflt) == "constant-default")
+    elif d["dk"].startswith("empty-literal"):
+        ctx.oblige("post", "an-empty-container-literal-is-evaluated-to-a-fresh-container", dflt is d["literal_value"])
+    else:
+        ctx.oblige("post", "any-other-default-expression-is-marked-unknown(the parameter stays optional, its default is not invented)", len(d["unknown"]) == 1 and dflt is d["unknown"][0] and dflt.attrs["resolver"] == "ast-resolver")
+
+
+UNITS.append(Unit("C13", MOD + ":ParametersVisitor.get_kwargs_pop_or_get_parameter", pg_setup, pg_post, never13, expect_cover=("return",),
+                  trusted=["ast_get_constant_value / ast_is_constant / ast.dump read the node as their names say", "ast_literals maps the dumps of {}, [], dict(), list(), ... to constructors"]))
+
+
+# ------------------------------------------------------------------------------------------------ ParametersVisitor.get_parameters / get_parameters_call_attr / get_parameters_attr_use_in_members / add_node_origins
+def gp_setup(ctx):
+    has_component = ctx.choose(2, "component-given") == 1
+    args_idx = [-1, 0][ctx.choose(2, "signature-has-*args")] if has_component else -1
+    kw = ["none", "**kwargs", "**kwargs: Unpack[TypedDict]"][ctx.choose(3, "signature-has-**kwargs")] if has_component else "none"
+    sig_params = [P("x"), P("args", "VAR_POSITIONAL"), P("kwargs", "VAR_KEYWORD")]
+    doc, stubs = Rec("doc_params"), Rec("stubs")
+    comp, parent, logger = (Rec("component") if has_component else None), Rec("parent"), Rec("logger")
+    open_cms = []
+    resolved = (["resolved-args"], ["resolved-kwargs"])
+    replaced, final = [P("x"), P("r1")], [P("x"), P("r1-final")]
+    self = Rec("ParametersVisitor", attrs={"component": comp, "parent": parent, "logger": logger, "doc_params": None})
+    self.methods.update({
+        "replace_param_default_subclass_specs": lambda c, s_, a, k: c.event("default-specs", a[0]),
+        "get_parameters_args_and_kwargs": lambda c, s_, a, k: (c.event("body-analysis", list(open_cms), s_.attrs["doc_params"]), resolved)[1],
+        "remove_ignore_parameters": lambda c, s_, a, k: (c.event("ignore-list", a[0]), final)[1],
+    })
+    calls = {"get_signature_parameters_and_indexes": lambda c, a, k: (c.event("signature", list(a)), (sig_params, args_idx, 2 if kw != "none" else -1, doc, stubs))[1],
+             "unpack_typed_dict_kwargs": lambda c, a, k: (c.event("unpack", a[0], a[1]), -1 if kw.endswith("TypedDict]") else a[1])[1],
+             "replace_args_and_kwargs": lambda c, a, k: (c.event("replace", a[0], a[1], a[2]), replaced)[1],
+             "add_stub_types": lambda c, a, k: c.event("stub-types", a[0], a[1], a[2])}
+    cms = {"mro_context": (lambda c, a, k: open_cms.append(a[0]), lambda c, t, e: (open_cms.pop(), False)[1])}
+    return Setup(env={"self": self}, calls=calls, cms=cms, data=dict(has_component=has_component, args_idx=args_idx, kw=kw, sig_params=sig_params, doc=doc, stubs=stubs, comp=comp, parent=parent, logger=logger,
+                                                                    resolved=resolved, replaced=replaced, final=final, open_cms=open_cms, self_=self))
+
+
+def gp_post(ctx, st, result):
+    d = st.data
+    ev = ctx.events
+    tag = f"[*args:{d['args_idx'] >= 0},{d['kw']}]"
+    if not d["has_component"]:
+        ctx.oblige("post", "no-component=>no-parameters", result == [] and not ev)
+        return
+    sig = [e for e in ev if e[0] == "signature"]
+    ctx.oblige("post", "the-signature-is-read-once-for(component,parent,logger)" + tag, len(sig) == 1 and sig[0][1][0] is d["comp"] and sig[0][1][1] is d["parent"] and sig[0][1][2] is d["logger"])
+    needs_body = d["args_idx"] >= 0 or d["kw"] == "**kwargs"
+    body = [e for e in ev if e[0] == "body-analysis"]
+    rep = [e for e in ev if e[0] == "replace"]
+    if needs_body:
+        ctx.oblige("post", "a-signature-with-*args/**kwargs:the-body-is-analysed-once,with-the-MRO-cursor-at-the-parent-class-and-the-docstring-parameters-in-place,and-what-it-resolves-replaces-*args/**kwargs" + tag,
+                   len(body) == 1 and len(body[0][1]) == 1 and body[0][1][0] is d["parent"] and body[0][2] is d["doc"] and len(rep) == 1 and rep[0][1] is d["sig_params"] and rep[0][2] is d["resolved"][0] and rep[0][3] is d["resolved"][1])
+    else:
+        ctx.oblige("post", "a-signature-without-*args/**kwargs(or whose **kwargs is an unpacked TypedDict)-is-taken-as-it-is:the-body-is-not-analysed" + tag, not body and not rep)
+    params_then = d["replaced"] if needs_body else d["sig_params"]
+    st_ = [e for e in ev if e[0] == "stub-types"]
+    ig = [e for e in ev if e[0] == "ignore-list"]
+    ctx.oblige("post", "then-stub-types-are-added-and-the-ignore-list-applied-to-that-list;its-result-is-returned" + tag,
+               len(st_) == 1 and st_[0][1] is d["stubs"] and st_[0][2] is params_then and st_[0][3] is d["comp"] and len(ig) == 1 and ig[0][1] is params_then and result is d["final"])
+    ctx.oblige("post", "defaults-that-are-class-instances-are-rewritten-on-the-signature's-parameters-first;the-MRO-cursor-is-released" + tag,
+               [e[0] for e in ev][:2] == ["signature", "default-specs"] and ev[1][1] is d["sig_params"] and not d["open_cms"])
+    un = [e for e in ev if e[0] == "unpack"]
+    ctx.oblige("post", "a-**kwargs-annotation-is-offered-for-TypedDict-unpacking(with the list and its index)-exactly-when-there-is-a-**kwargs" + tag, (len(un) == 1 and un[0][1] is d["sig_params"] and un[0][2] == 2) if d["kw"] != "none" else not un)
+
+
+UNITS.append(Unit("C13", MOD + ":ParametersVisitor.get_parameters", gp_setup, gp_post, never13, expect_cover=("return",),
+                  trusted=["get_signature_parameters_and_indexes returns (parameters, index of *args, index of **kwargs, docstring parameters, stubs) of the signature (inspect)",
+                           "get_parameters_args_and_kwargs, replace_args_and_kwargs, mro_context: their own units", "add_stub_types / remove_ignore_parameters / replace_param_default_subclass_specs by contract"]))
+
+
+def ano_setup(ctx):
+    n = ctx.choose(4, "n-params")
+    pre = [ctx.choose(2, f"p{i}-already-has-an-origin") == 1 for i in range(n)]
+    params = [Rec("ParamData", attrs={"name": f"p{i}", "origin": ("earlier", i) if pre[i] else None}) for i in range(n)]
+    for p in params:
+        p.methods["__setattr__"] = lambda c, s_, a, k: s_.attrs.__setitem__(a[0], a[1])
+    node = Rec("node")
+    self = Rec("ParametersVisitor", methods={"get_node_origin": lambda c, s_, a, k: (c.event("origin-of", a[0]), "mod.Cls.__init__:12")[1]})
+    return Setup(env={"self": self, "params": params, "node": node}, data=dict(params=params, pre=pre, node=node))
+
+
+def ano_post(ctx, st, result):
+    d = st.data
+    ok = all((p.attrs["origin"] == ("earlier", i)) if d["pre"][i] else (p.attrs["origin"] == "mod.Cls.__init__:12") for i, p in enumerate(d["params"]))
+    ctx.oblige("post", "a-parameter-without-origin-gets-this-node's;one-that-has-an-origin(resolved deeper)-keeps-it", ok)
+    ev = [e for e in ctx.events if e[0] == "origin-of"]
+    ctx.oblige("post", "the-origin-is-computed-at-most-once,for-this-node,only-if-needed", len(ev) == (0 if all(d["pre"]) else 1) and all(e[1] is d["node"] for e in ev))
+
+
+UNITS.append(Unit("C13", MOD + ":ParametersVisitor.add_node_origins", ano_setup, ano_post, never13, expect_cover=("return",)))
+
+
+def gpca_setup(ctx):
+    n_uses = ctx.choose(3, "uses-of-the-attribute")
+    matches = [ctx.choose(2, f"use{i}-is-a-forwarding-call") == 1 for i in range(n_uses)]
+    nodes = [Rec("node", attrs={"i": i}) for i in range(n_uses)]
+    attr_value = Rec("Attribute(self.stored, Load)")
+    produced = {i: [P(f"u{i}")] for i in range(n_uses)}
+    grouped = Rec("grouped parameters", methods={"__bool__": lambda c, s_, a, k: True})
+    self = Rec("ParametersVisitor", methods={
+        "parse_source_tree": lambda c, s_, a, k: c.event("parse"), "find_values_usage": lambda c, s_, a, k: (c.event("find", dict(a[0])), [("stored", nd, Rec("source")) for nd in nodes])[1],
+        "match_call_that_uses_attr": lambda c, s_, a, k: (c.event("match", a[0], a[2]), produced[a[0].attrs["i"]] if matches[a[0].attrs["i"]] else None)[1],
+        "add_node_origins": lambda c, s_, a, k: c.event("origins", a[0], a[1])})
+    group_in = []
+    calls = {"group_parameters": lambda c, a, k: (group_in.append(list(a[0])), grouped if a[0] else [])[1]}  # (its own unit: nothing in, nothing out)
+    return Setup(env={"self": self, "attr_name": "stored", "attr_value": attr_value}, calls=calls, data=dict(n_uses=n_uses, matches=matches, nodes=nodes, attr_value=attr_value, produced=produced, grouped=grouped, group_in=group_in))
+
+
+def gpca_post(ctx, st, result):
+    d = st.data
+    ev = ctx.events
+    tag = f"[{d['matches']}]"
+    f = [e for e in ev if e[0] == "find"]
+    ctx.oblige("post", "the-uses-of-exactly-self.<attr>-are-looked-up-in-this-member's-body" + tag, len(f) == 1 and list(f[0][1]) == ["stored"] and f[0][1]["stored"] is d["attr_value"] and ev[0][0] == "parse")
+    want = [d["produced"][i] for i in range(d["n_uses"]) if d["matches"][i]]
+    if d["n_uses"] == 0:
+        ctx.oblige("post", "the-attribute-is-not-used-here=>None(the next member is tried)" + tag, result is None and not d["group_in"])
+        return
+    ctx.oblige("post", "every-use-that-is-a-forwarding-call-contributes-its-parameters(marked with its node),in-order;they-are-grouped" + tag,
+               len(d["group_in"]) == 1 and len(d["group_in"][0]) == len(want) and all(x is y for x, y in zip(d["group_in"][0], want))
+               and [e[2] for e in ev if e[0] == "origins"] == [d["nodes"][i] for i in range(d["n_uses"]) if d["matches"][i]])
+    ctx.oblige("post", "the-grouped-parameters-are-the-result;no-forwarding-use=>None(the next member is tried)" + tag, result is (d["grouped"] if want else None))
+
+
+UNITS.append(Unit("C13", MOD + ":ParametersVisitor.get_parameters_call_attr", gpca_setup, gpca_post, never13, expect_cover=("return",),
+                  trusted=["find_values_usage / match_call_that_uses_attr: static analysis of the member's body (harness)", "group_parameters: its own unit (here: returns a non-empty list for a non-empty input)"]))
